@@ -29,15 +29,67 @@ from cflib.crazyflie.mem.memory_element import MemoryElement
 
 FUNCTIONS = ['cflib.crazyflie.mem.i2c_element:I2CElement.new_data', 'cflib.crazyflie.mem.i2c_element:I2CElement.write_data',
              'cflib.crazyflie.mem.i2c_element:I2CElement.update', 'cflib.crazyflie.mem.i2c_element:I2CElement._checksum256',
+             'cflib.crazyflie.mem.i2c_element:I2CElement.write_done',
              'cflib.crazyflie.mem.ow_element:OWElement.new_data', 'cflib.crazyflie.mem.ow_element:OWElement.write_data',
              'cflib.crazyflie.mem.ow_element:OWElement._parse_and_check_elements',
-             'cflib.crazyflie.mem.ow_element:OWElement._parse_and_check_header', 'cflib.crazyflie.mem.ow_element:OWElement.update']
+             'cflib.crazyflie.mem.ow_element:OWElement._parse_and_check_header', 'cflib.crazyflie.mem.ow_element:OWElement.update',
+             'cflib.crazyflie.mem.lighthouse_memory:LighthouseBsGeometry', 'cflib.crazyflie.mem.lighthouse_memory:LighthouseBsCalibration',
+             'cflib.crazyflie.mem.lighthouse_memory:LighthouseCalibrationSweep',
+             'cflib.crazyflie.mem.lighthouse_memory:LighthouseMemory.new_data',
+             'cflib.crazyflie.mem.lighthouse_memory:LighthouseMemory.new_data_failed',
+             'cflib.crazyflie.mem.lighthouse_memory:LighthouseMemory.read_geo_data',
+             'cflib.crazyflie.mem.lighthouse_memory:LighthouseMemory.read_calib_data',
+             'cflib.crazyflie.mem.lighthouse_memory:LighthouseMemory.write_geo_data',
+             'cflib.crazyflie.mem.lighthouse_memory:LighthouseMemory.write_calib_data',
+             'cflib.crazyflie.mem.lighthouse_memory:LighthouseMemory.write_done',
+             'cflib.localization.lighthouse_config_manager:LighthouseConfigFileManager.write',
+             'cflib.localization.lighthouse_config_manager:LighthouseConfigFileManager.read',
+             'cflib.localization.param_io:ParamFileManager.write', 'cflib.localization.param_io:ParamFileManager.read',
+             'cflib.crazyflie.mem.trajectory_memory:Poly4D.pack', 'cflib.crazyflie.mem.trajectory_memory:CompressedStart.pack',
+             'cflib.crazyflie.mem.trajectory_memory:CompressedSegment.pack', 'cflib.crazyflie.mem.trajectory_memory:CompressedSegment._encode_type',
+             'cflib.crazyflie.mem.trajectory_memory:CompressedSegment._pack_element',
+             'cflib.crazyflie.mem.trajectory_memory:TrajectoryMemory.write_data', 'cflib.crazyflie.mem.trajectory_memory:TrajectoryMemory.write_done',
+             'cflib.crazyflie.mem.led_timings_driver_memory:LEDTimingsDriverMemory.add',
+             'cflib.crazyflie.mem.led_timings_driver_memory:LEDTimingsDriverMemory.write_data',
+             'cflib.crazyflie.mem.deck_memory:DeckMemory._parse', 'cflib.crazyflie.mem.deck_memory:DeckMemoryManager._parse_info_section',
+             'cflib.crazyflie.mem.deck_memory:DeckMemoryManager.query_decks', 'cflib.crazyflie.mem.deck_memory:DeckMemoryManager._new_data',
+             'cflib.crazyflie.mem.loco_memory:LocoMemory.new_data', 'cflib.crazyflie.mem.loco_memory:LocoMemory.update',
+             'cflib.crazyflie.mem.loco_memory:AnchorData.set_from_mem_data',
+             'cflib.crazyflie.mem.loco_memory_2:LocoMemory2.new_data', 'cflib.crazyflie.mem.loco_memory_2:LocoMemory2.update_id_list',
+             'cflib.crazyflie.mem.loco_memory_2:LocoMemory2.update_active_id_list', 'cflib.crazyflie.mem.loco_memory_2:LocoMemory2.update_data',
+             'cflib.crazyflie.mem.loco_memory_2:LocoMemory2._handle_id_list_data', 'cflib.crazyflie.mem.loco_memory_2:LocoMemory2._handle_anchor_data',
+             'cflib.crazyflie.mem.loco_memory_2:AnchorData2.set_from_mem_data']
 STUBS = ['Mem (vf/env/c14_env.py): byte-array memory handler standing in for cflib.crazyflie.mem.Memory; read/write only '
-         'record the request, the harness delivers exactly one new_data/write_done per request, never re-entrantly',
+         'record the request, the harness delivers exactly one new_data/write_done (or failure) callback per request, never '
+         're-entrantly',
+         'YamlStore: open()/yaml.dump/yaml.safe_load in lighthouse_config_manager and param_io replaced by a lossless in-memory '
+         'store (deep copies) - PyYAML and the file system are not executed',
+         'format() of a symbolic byte buffer / of a symbolic int with empty spec yields a placeholder (only log lines and '
+         'exception texts are built that way in the code under test; no assertion reads a message text)',
+         'solver models local to vf/env/c14_env.py: CRC-32 as an affine map over GF(2) (validated in harness crc_model), '
+         'hi<<k | lo as a sum when the solver proves the bit ranges disjoint, x & (2^k-1) on BV2Int terms as Extract, '
+         'struct pack/unpack of bit-vector backed ints as byte slices, bytes.split(one byte) as a scan',
          'logging disabled']
-ASSUMPTIONS = []
-OUTSIDE = []
-EXPLANATION = 'C14: images are symbolic byte arrays / symbolic field values behind a byte-array memory handler.'
+ASSUMPTIONS = ['storage layouts are the ones in the docstring of vf/props/c14.py (firmware sources are not in the sandbox)',
+               'float content is finite and within the float32 range (NaN payloads and infinities are not enumerated); the '
+               'round trip is exact on the float32 rounding of the value',
+               'lighthouse / trajectory float fields: one field symbolic at a time, the others pairwise distinct constants; LED '
+               'colours: one 8 bit channel symbolic at a time',
+               '1-wire images are structurally well-formed TLV lists with element ids 1..3 (ids are dict keys: forked '
+               'concretely; string CONTENT and all other bytes symbolic); string lengths within the stated bound',
+               'deck names are ASCII, bytes after the terminating NUL are all NUL or all non-NUL',
+               'EEPROM single-byte corruption excludes the version byte flipping between 0 and 1: that changes which bytes are '
+               'covered, and whether the result is valid then depends on bytes outside the original image (format property, '
+               'same on the firmware side)',
+               'EEPROM images of unknown version (>= 2) are never reported valid; that update() then never calls back is noted, '
+               'not asserted']
+OUTSIDE = ['PyYAML fidelity and file-system errors', 'LighthouseMemHelper / LighthouseConfigWriter sequencing of several pages (C06-style plumbing)',
+           '1-wire images with unknown element ids or truncated TLVs (KeyError / struct.error escape new_data)',
+           'numeric value of the compressed-trajectory scaling for non-integer metres and arbitrary angles (C13)',
+           'deck names with non-ASCII bytes (the library drops such a deck on purpose)', 'NaN / infinite float fields',
+           'more than 2 one-wire elements x 5 characters (thorough), 99 characters for a single element']
+EXPLANATION = 'C14: images are symbolic byte arrays / symbolic field values behind a byte-array memory handler; written images are ' \
+              'compared with format-side reference encoders/decoders and read back through the real parsers.'
 
 install_format_stub()
 install_disjoint_or()
@@ -213,10 +265,9 @@ def ow_elements(sym, distinct):
     else:
         ids = _PERMS3[sym.choice('ids', 6)]
     out = []
+    lens = sym.B.get('lens') or tuple(range(maxlen + 1))
     for i, eid in enumerate(ids):
-        ln = sym.B['minlen'] + sym.choice(f'len{i}', maxlen - sym.B['minlen'] + 1) if 'minlen' in sym.B else \
-            sym.choice(f'len{i}', maxlen + 1)
-        out.append((eid, bv_bytes(sym, f's{i}_', ln)))
+        out.append((eid, bv_bytes(sym, f's{i}_', lens[sym.choice(f'len{i}', len(lens))])))
     return out
 
 
@@ -263,7 +314,9 @@ def h_ow_roundtrip(sym):
     hdr_ok, crc_ok, rpins, rvid, rpid, rel, end = ow_ref_parse(h.image)
     assert hdr_ok and crc_ok, 'written image has a wrong header byte or CRC'
     assert (rpins, rvid, rpid) == (list(struct.pack('<I', pins)), vid, pid), 'header fields misplaced'
-    assert h.image[9] == total and rel == {eid: b for eid, b in elems}, 'element area differs from the TLV layout'
+    assert h.image[9] == total and sorted(rel) == sorted(eid for eid, _ in elems), 'element area differs from the TLV layout'
+    for eid, b in elems:
+        assert all_equal(rel[eid], b), 'element content differs from the TLV layout'
     h.serve_all()
     assert len(wdone.calls) == 1
     # read back as the library does it (11 bytes, then the element area)
@@ -271,7 +324,9 @@ def h_ow_roundtrip(sym):
     assert len(done.calls) == 1, 'update callback not called exactly once'
     assert el2.valid, 'correctly written image rejected'
     assert (el2.pins, el2.vid, el2.pid) == (pins, vid, pid), 'header fields lost'
-    assert el2.elements == content, 'elements lost or changed in the round trip'
+    assert sorted(el2.elements) == sorted(content), 'elements lost or invented in the round trip'
+    for eid, b in elems:
+        assert all_equal(el2.elements[OW_NAMES[eid]].encode('ISO-8859-1'), b), 'element content changed in the round trip'
     sym.goal(f'{len(elems)}-elements')
     if h.reads == [(0, 11), (8, total + 3)]:
         sym.goal('two-step-read')
@@ -305,8 +360,8 @@ def h_ow_valid(sym):
 
 
 # ================================================================ lighthouse memory layout
-from cflib.crazyflie.mem.lighthouse_memory import (LighthouseMemory, LighthouseBsGeometry, LighthouseBsCalibration,  # noqa: E402
-                                                    LighthouseCalibrationSweep, LighthouseMemHelper)
+from cflib.crazyflie.mem.lighthouse_memory import (LighthouseMemory, LighthouseBsGeometry,      # noqa: E402
+                                                    LighthouseBsCalibration)
 
 SWEEP_FIELDS = ('phase', 'tilt', 'curve', 'gibmag', 'gibphase', 'ogeemag', 'ogeephase')     # firmware struct order
 
@@ -687,7 +742,7 @@ def h_led_timings(sym):
 
 
 # ================================================================ deck memory info, loco anchors
-from cflib.crazyflie.mem.deck_memory import DeckMemoryManager, DeckMemory     # noqa: E402
+from cflib.crazyflie.mem.deck_memory import DeckMemoryManager                 # noqa: E402
 from cflib.crazyflie.mem.loco_memory import LocoMemory                        # noqa: E402
 from cflib.crazyflie.mem.loco_memory_2 import LocoMemory2                     # noqa: E402
 
@@ -845,11 +900,11 @@ HARNESSES = [
     Harness('crc_model', h_crc_model, quick=dict(lengths=(1, 2)), thorough=dict(lengths=(1, 2, 3)), timeout=(250, 900)),
     Harness('eeprom_valid', h_eeprom_valid, goals=('valid-v0', 'valid-v1', 'invalid', 'unknown-version'), timeout=(200, 600)),
     Harness('eeprom_corrupt', h_eeprom_corrupt, goals=('corrupted',), timeout=(200, 600)),
-    Harness('ow_roundtrip', h_ow_roundtrip, quick=dict(n=1, maxlen=8), thorough=dict(n=2, maxlen=5), timeout=(250, 1500),
-            goals=('0-elements', '1-elements', 'two-step-read')),
-    Harness('ow_roundtrip[long]', h_ow_roundtrip, quick=dict(n=1, maxlen=99, minlen=9), timeout=(300, 1500),
-            goals=('1-elements', 'two-step-read'), tiers=('thorough',)),
-    Harness('ow_valid', h_ow_valid, quick=dict(n=1, maxlen=4), thorough=dict(n=2, maxlen=3), timeout=(250, 1500),
+    Harness('ow_roundtrip', h_ow_roundtrip, quick=dict(n=2, maxlen=3), thorough=dict(n=2, maxlen=5), timeout=(250, 1500),
+            goals=('0-elements', '1-elements', '2-elements', 'two-step-read')),
+    Harness('ow_roundtrip[long]', h_ow_roundtrip, quick=dict(n=1, maxlen=16, lens=(5, 8, 16)),
+            thorough=dict(n=1, maxlen=99, lens=(9, 16, 33, 72, 99)), timeout=(300, 1500), goals=('1-elements', 'two-step-read')),
+    Harness('ow_valid', h_ow_valid, quick=dict(n=2, maxlen=2), thorough=dict(n=2, maxlen=3), timeout=(250, 1500),
             goals=('valid', 'invalid')),
     Harness('lh_geo', h_lh_geo, goals=('valid', 'not-valid'), timeout=(250, 900), smt_timeout=1.5),
     Harness('lh_calib', h_lh_calib, goals=('valid', 'not-valid'), timeout=(250, 900), smt_timeout=1.5),
@@ -868,7 +923,7 @@ HARNESSES = [
     Harness('deck_info[2]', h_deck_info, quick=dict(records=2, namelens=(0, 5, 18), garbage=False), timeout=(300, 1500),
             goals=('valid', 'not-valid', 'name-18'), tiers=('thorough',)),
     Harness('loco', h_loco, quick=dict(n=2), thorough=dict(n=4), goals=('0-anchors', '2-anchors'), timeout=(250, 900), smt_timeout=1.5),
-    Harness('loco2', h_loco2, quick=dict(sets=5), thorough=dict(sets=7), goals=('no-anchors', 'anchors'), timeout=(250, 900),
+    Harness('loco2', h_loco2, quick=dict(sets=6), thorough=dict(sets=7), goals=('no-anchors', 'anchors'), timeout=(250, 900),
             smt_timeout=1.5, symbolic=False, note='anchor ids are forked over fixed sets (they become dict keys and page addresses)'),
     Harness('eeprom_roundtrip', h_eeprom_roundtrip, goals=('v0', 'v1'), timeout=(200, 600), smt_timeout=1.5),
 ]
